@@ -25,6 +25,13 @@ INC_FILES = {
     "inc1.mac": "inc1lab: .word 1, 2\n  mov #inc1lab, r0\n",
     "inc2.mac": ".once\ninc2v = 5\n .byte inc2v\n .even\n",
     "inc3.mac": "shared:: nop\n.include \"inc2.mac\"\n",
+    # include cycles: unguarded (must be reported, not recursed into until the interpreter gives up), guarded by .once, and through a
+    # differently spelled path
+    "cyc1.mac": " nop\n.include \"cyc1.mac\"\n",
+    "cyc2.mac": " nop\n.include \"cyc3.mac\"\n",
+    "cyc3.mac": ".word 1\n.include \"./cyc2.mac\"\n",
+    "cyg1.mac": ".once\n nop\n.include \"cyg2.mac\"\n",
+    "cyg2.mac": ".once\n.word 2\n.include \"./cyg1.mac\"\n.include \"cyg2.mac\"\n",
 }
 
 
@@ -66,7 +73,7 @@ def gen_input(rnd, root):
     nfiles = rnd.choice([1, 1, 1, 2, 3])
     files = []
     for i in range(nfiles):
-        text, how = gen.hostile_text(rnd, files=("inc1.mac", "inc2.mac", "inc3.mac", "nosuch.mac"))
+        text, how = gen.hostile_text(rnd, files=("inc1.mac", "inc2.mac", "inc3.mac", "nosuch.mac", "cyc1.mac", "cyc2.mac", "cyg1.mac", "cyg2.mac"))
         lines = text.split("\n")
         if len(lines) > 60:
             text = "\n".join(lines[:60]) + "\n"
@@ -109,7 +116,8 @@ def run_shard(spec):
         max_steps = 0
         for i in range(spec["count"]):
             files, how = gen_input(rnd, root)
-            case = {"files": files, "handler": rnd.choice(["bare", "graphical", "record"]), "cli": (i % 100 == 0), "root": root,
+            big = any(re.search(r"(?i)\.?blk[bw]\s+(1777\d\d|6553\d|100000|77777)", t) for _, t in files)
+            case = {"files": files, "handler": rnd.choice(["bare", "graphical", "record"]), "cli": (i % 100 == 0) or bool(big), "root": root,
                     "wctl": rnd.choice(["everything", "everything", "default", "nothing", "ids-off", "ids-off"]), "wseed": rnd.randrange(1 << 30)}
             vs, info = run_one(case, cnt)
             res["violations"].extend(vs)
@@ -282,6 +290,11 @@ def cli_cross_check(case, o, cnt):
         if got != want and not any(ord(c) > 0xD7FF and ord(c) < 0xE000 for _, t in case["files"] for c in t) and "\r" not in "".join(t for _, t in case["files"]):
             # emit-time errors (make_* to an unwritable path) legitimately turn an API 'ok' into a CLI failure
             if o.cls == "ok" and got == (1, False) and any(e[1] == "io-error" for e in r["events"]):
+                return out
+            # ... and so does an image that the requested container cannot describe (bin / tape headers hold 16-bit lengths)
+            if o.cls == "ok" and got == (1, False) and o.code is not None and len(o.code) > 0xFFFF and \
+                    (b"can only hold up to 65535 bytes" in r["stderr"] or any(e[1] == "value-out-of-bounds" for e in r["events"])):
+                cnt["cli_container_limit_reported"] = cnt.get("cli_container_limit_reported", 0) + 1
                 return out
             out.append({"what": f"API outcome {o.cls} but CLI exit {r['exit']} banner={r['internal_error']}; stderr tail {r['stderr'][-200:]!r}",
                         "case": {k: v for k, v in case.items()}})
